@@ -825,7 +825,7 @@ static Case gen_netloc_fb() {
 // ---------------------------------------------------------------- enumerators
 
 // quick tier: which share of the 2^16 (first byte, second byte) blocks of the 3-byte enumerations of rot13 and the escapers is swept
-static const unsigned kQuickStride = 1;
+static const unsigned kQuickStride = 4;
 
 template <typename F>
 static void for_each_dictionary_text(F&& f);
